@@ -6,6 +6,7 @@ import (
 	"fmt"
 	"io"
 	"net/http"
+	"strings"
 	"time"
 )
 
@@ -44,7 +45,19 @@ func newModeN(p *UploadPlan, rec *upTransport) *modeN {
 	if p.Server == "handler" {
 		h = rec.h
 	} else {
+		served := 0
 		h = http.HandlerFunc(func(w http.ResponseWriter, r *http.Request) {
+			rec.mu.Lock()
+			served++
+			first := served == 1
+			rec.mu.Unlock()
+			if first && p.Prelude != "" {
+				io.Copy(io.Discard, r.Body)
+				w.Header().Set("Content-Type", p.Prelude)
+				w.WriteHeader(http.StatusInsufficientStorage)
+				io.WriteString(w, `{"error":"quota exceeded","detail":"`+strings.Repeat("x", 3000)+`"}`)
+				return
+			}
 			buf := make([]byte, max(1, p.ReadChunk))
 			n := 0
 			for p.ReadBytes < 0 || n < p.ReadBytes {
@@ -118,6 +131,9 @@ func newModeN(p *UploadPlan, rec *upTransport) *modeN {
 	m.srv = &http.Server{Handler: h}
 	go m.srv.Serve(m.l)
 	m.tr = &http.Transport{DialContext: m.l.Dial, DisableKeepAlives: !p.KeepAlive, DisableCompression: true}
+	if p.Prelude != "" {
+		m.tr.MaxConnsPerHost = 1
+	}
 	m.client = &http.Client{Transport: &recordingRT{inner: m.tr, rec: rec}}
 	return m
 }
